@@ -641,6 +641,14 @@ func ruleC02(w *World) {
 					w.ok("C02.R7", key, c.Pos(), "count is the length of this array")
 					continue
 				}
+				// count is the length of another per-group array: both grow by one in every iteration of the same loop
+				if h1, why1 := w.appendLoopOf(arr); h1 != nil {
+					if h2, _ := w.appendLoopOf(cntOf); h2 == h1 {
+						w.ok("C02.R7", key, c.Pos(), "count is the length of an array that is extended in step with this one (one append each per iteration of the same loop)")
+						continue
+					}
+					_ = why1
+				}
 				// count is len(M): the array must grow by exactly one per iteration of range M
 				why := w.oneAppendPerRange(arr, cntOf)
 				w.check(why == "", "C02.R7", key, c.Pos(), "one entry is appended per iteration of the loop over `"+render(cntOf)+"`, whose length is the count", "the group count is `"+render(cnt)+"` but `"+shortCond(render(arr))+"` does not hold exactly one entry per element of `"+render(cntOf)+"`: "+why+" — C reads a number of groups different from what the arrays hold (trailing groups ignored, or reads past the arrays)")
@@ -1082,6 +1090,30 @@ func ruleC03(w *World) {
 	wants = append(wants, hasherFacts(kmac, a)...)
 	_ = g
 	w.requireFacts("C03.R3", key, c, wants...)
+	// R8: the hash every signature is verified against is the hasher's output for *this call's* message: the data pointer
+	// and length handed to C are &h[0], len(h) with h = hasher.ComputeHash(message) computed in this activation
+	w.floor("C03.R8", 1)
+	{
+		msg := P(fn, 2)
+		wantH := fmt.Sprintf("%s.ComputeHash(%s)", kmac, msg)
+		found := false
+		for i, a := range c.Call.Args {
+			r := render(a)
+			if strings.Contains(r, "ComputeHash(") || strings.HasPrefix(r, "&") && i >= 3 && i <= 4 {
+				if r == "&"+wantH+"[0]" {
+					found = true
+					if i+1 < len(c.Call.Args) {
+						w.check(render(c.Call.Args[i+1]) == "len("+wantH+")", "C03.R8", key+"/hash-length", c.Pos(), "hash length is len(hasher.ComputeHash(message))", "the hash length handed to C is `"+render(c.Call.Args[i+1])+"`, not the length of this call's hash")
+					}
+				}
+			}
+		}
+		got := ""
+		if len(c.Call.Args) > 4 {
+			got = render(c.Call.Args[4])
+		}
+		w.check(found, "C03.R8", key+"/hash-provenance", c.Pos(), "signatures are verified against hasher.ComputeHash(message) of this call", "the hash handed to C.bls_batch_verify is `"+shortCond(got)+"`, not `&"+wantH+"[0]`: every boolean of the batch must be the verdict for this call's message under this call's hasher (a cached or shared expansion can be stale)")
+	}
 	// seed: the last argument's buffer is filled by crypto/rand.Read, whose error is checked
 	seed := sliceBase(c.Call.Args[len(c.Call.Args)-1])
 	secBits, _ := w.constInt(rootPath, "securityBits")
@@ -1264,6 +1296,8 @@ func sliceBase(v ssa.Value) ssa.Value {
 // ---------- C04 (Go side) ----------
 
 func ruleC04(w *World) {
+	w.floor("C04.R7", 10)
+	w.ruleCgoAliasing("C04.R7")
 	a := w.bls("C04.R1")
 	if a == nil {
 		return
@@ -1623,6 +1657,9 @@ func ruleC16(w *World) {
 	// ComputeHash re-keys its clone): otherwise two differently keyed hashers coincide after Reset
 	w.floor("C16.R5", 3)
 	w.ruleKmacSequences("C16.R5")
+	// R6: the identity-key rejection R4 relies on tests a flag: every key object that can exist has it computed (= C01.R4)
+	w.floor("C16.R6", 4)
+	w.ruleIdentityFlag("C16.R6", a)
 	// R4: identity key rejected in Verify (shared with C01.R2)
 	sites := cgoCalls(a.verify, "bls_verify")
 	if len(sites) == 1 {
@@ -1718,6 +1755,47 @@ func sliceBaseNoHelper(v ssa.Value) ssa.Value {
 // oneAppendPerRange: "" when the slice value arr (as seen after the loop) starts empty and is extended by exactly one
 // append, executed on every iteration of the innermost loop it sits in, and that loop ranges over the collection m.
 func (w *World) oneAppendPerRange(arr, m ssa.Value) string {
+	hdr, why := w.appendLoopOf(arr)
+	if hdr == nil {
+		return why
+	}
+	// the loop is driven by range over m
+	for _, ins := range hdr.Instrs {
+		if nx, ok := ins.(*ssa.Next); ok {
+			if rg, ok := nx.Iter.(*ssa.Range); ok && (render(rg.X) == render(m) || (helperValue(arr) != nil && paramOfSameCall(rg.X, m, arr))) {
+				return ""
+			}
+		}
+	}
+	return "the append sits in a loop that does not range over `" + shortCond(render(m)) + "` (a nested or different loop)"
+}
+
+// paramOfSameCall: x is a parameter of the helper whose result arr is, and the call passes m for it
+func paramOfSameCall(x, m, arr ssa.Value) bool {
+	p, ok := stripConv(x).(*ssa.Parameter)
+	if !ok {
+		return false
+	}
+	var c *ssa.Call
+	switch a := stripConv(arr).(type) {
+	case *ssa.Call:
+		c = a
+	case *ssa.Extract:
+		c, _ = a.Tuple.(*ssa.Call)
+	}
+	if c == nil || c.Call.StaticCallee() != p.Parent() {
+		return false
+	}
+	i := paramIndex(p.Parent(), p)
+	return i >= 0 && i < len(c.Call.Args) && render(c.Call.Args[i]) == render(m)
+}
+
+// appendLoopOf: the header of the loop in which the slice value (looked at after the loop, possibly the result of a helper
+// the rules do not know) receives its one append per iteration, starting from an empty slice; nil and the reason otherwise.
+func (w *World) appendLoopOf(arr ssa.Value) (*ssa.BasicBlock, string) {
+	if hv := helperValue(stripConv(arr)); hv != nil {
+		arr = hv
+	}
 	// collect the web of slice values: phis and appends
 	var appends []*ssa.Call
 	var inits []ssa.Value
@@ -1754,45 +1832,33 @@ func (w *World) oneAppendPerRange(arr, m ssa.Value) string {
 			if _, isAlloc := in.(*ssa.Alloc); isAlloc {
 				continue // make with constant size lowered to an array; length checked below through Slice
 			}
-			return "it does not start as a fresh empty slice (`" + shortCond(render(in)) + "`)"
+			return nil, "it does not start as a fresh empty slice (`" + shortCond(render(in)) + "`)"
 		}
 		if l, h, k := w.intBound(ms.Len, ms); !k || l != 0 || h != 0 {
-			return "it does not start empty"
+			return nil, "it does not start empty"
 		}
 	}
 	if len(appends) != 1 {
-		return fmt.Sprintf("%d append sites extend it", len(appends))
+		return nil, fmt.Sprintf("%d append sites extend it", len(appends))
 	}
 	ap := appends[0]
 	// exactly one element per append: the variadic slice holds one value
 	if sl, ok := ap.Call.Args[1].(*ssa.Slice); ok {
 		if l, h, k := w.lenBound(sl, ap); !k || l != 1 || h != 1 {
-			return "an append adds a number of elements other than one"
+			return nil, "an append adds a number of elements other than one"
 		}
 	} else {
-		return "an append adds a whole slice"
+		return nil, "an append adds a whole slice"
 	}
 	hdr := loopHeaderOf(ap.Block())
 	if hdr == nil {
-		return "the append is not in a loop"
-	}
-	// the loop is driven by range over m
-	isRange := false
-	for _, ins := range hdr.Instrs {
-		if nx, ok := ins.(*ssa.Next); ok {
-			if rg, ok := nx.Iter.(*ssa.Range); ok && render(rg.X) == render(m) {
-				isRange = true
-			}
-		}
-	}
-	if !isRange {
-		return "the append sits in a loop that does not range over `" + shortCond(render(m)) + "` (a nested or different loop)"
+		return nil, "the append is not in a loop"
 	}
 	// executed on every iteration: dominates every back edge source
 	for _, p := range hdr.Preds {
 		if hdr.Dominates(p) && !ap.Block().Dominates(p) {
-			return "some iteration of the loop skips the append"
+			return nil, "some iteration of the loop skips the append"
 		}
 	}
-	return ""
+	return hdr, ""
 }
